@@ -55,7 +55,7 @@ func init() {
 		"frToMont", "frFromMont", "frNeg", "frInvM", "e1Affine", "e2Affine", "e1Neg", "e2Neg", "g1mulgen", "g2mulgen", "g2mulJ", "h2c", "dl1", "dl2", "mapFr"} {
 		Theory[f] = TheoryFn{SMT: f, Ret: "Int", RetT: typInt}
 	}
-	for _, f := range []string{"fpAddM", "fpMulM", "fp2AddM", "fp2MulM", "fp2c", "frAdd", "frSub", "frMulM", "e1Add", "e2Add", "e1Mul", "e2Mul"} {
+	for _, f := range []string{"fpAddM", "fpMulM", "fp2AddM", "fp2MulM", "fp2c", "frAdd", "frSub", "frMulM", "e1Add", "e2Add", "e1Mul", "e2Mul", "e2MulSmall"} {
 		Theory[f] = TheoryFn{SMT: f, Ret: "Int", RetT: typInt}
 	}
 	for _, f := range []string{"e1x", "e1y", "e1z", "e2x", "e2y", "e2z"} {
